@@ -609,6 +609,11 @@ class _FieldLocals:
                     if any(isinstance(x, ast.Name) and x.id == v and isinstance(x.ctx, ast.Load) for x in ast.walk(out[k])):
                         ok = False
                         break
+                # the decoder shape: the object is used through its methods (v.read(...)) - a plain value that is stored in a field and
+                # then passed on (uid = str(x); self._placeholder = uid; Payload(uid)) is not re-read from the field
+                if ok and not any(isinstance(x, ast.Call) and isinstance(x.func, ast.Attribute) and isinstance(x.func.value, ast.Name) and x.func.value.id == v
+                                  for st_ in out[i + 2:j] for x in ast.walk(st_)):
+                    ok = False
                 if ok:
                     class Rep(ast.NodeTransformer):
                         def visit_Name(self_, node):
